@@ -141,6 +141,36 @@ func runC09Proc(e *Env) (int, error) {
 			c.Inv = procsim.Invocation{Kind: "stock", Args: []string{"-f", "json", name}, Cwd: c08Dir}
 			g = &C08Case{}
 		}
+		if run%12 == 7 {
+			// one layer inheriting from a directory's worth of parents (list or
+			// wildcard), one of which may be unreadable: which load finishes,
+			// fails or is reported first must not depend on the run
+			n := gen.PickAny(r, []int{8, 9, 12, 20, 33})
+			c = &C09ProcCase{Tool: "bkl", Runs: []string{"1", "16", "4", "16", "2", "16", "1", "16", "8", "16"}}
+			c.World.Dirs = []string{c08Dir, c08Dir + "/conf.d"}
+			broken := -1
+			if r.Chance(0.6) {
+				broken = r.Intn(n)
+			}
+			var names []any
+			for k := 0; k < n; k++ {
+				nm := fmt.Sprintf("p%02d", k)
+				names = append(names, "conf.d/"+nm)
+				if k == broken {
+					raw := r.Pick("a: [1, 2\n", "{\"a\": ", "\x00\xff", "a: 1\n  b: 2\n")
+					c.World.Files = append(c.World.Files, procsim.File{Path: c08Dir + "/conf.d/" + nm + ".yaml", Raw: &raw})
+					continue
+				}
+				c.World.Files = append(c.World.Files, procsim.File{Path: c08Dir + "/conf.d/" + nm + ".yaml", Docs: treeDocs(map[string]any{"name": nm, "l": []any{k}})})
+			}
+			var parent any = "conf.d/*"
+			if r.Chance(0.4) {
+				parent = names
+			}
+			c.World.Files = append(c.World.Files, procsim.File{Path: c08Dir + "/all.yaml", Docs: treeDocs(map[string]any{"$parent": parent, "all": true})})
+			c.Inv = procsim.Invocation{Kind: "stock", Args: []string{"-f", "json", "all.yaml"}, Cwd: c08Dir}
+			g = &C08Case{}
+		}
 		c.Inv.Injects, c.Inv.StdoutTo, c.Inv.Sched = nil, "", nil
 		if g.OutFile != "" || strings.Contains(strings.Join(g.Faults, " "), "symlink") {
 			return harness.RunResult{}
